@@ -42,10 +42,12 @@ class ActBase(BaseException):
     pass
 
 
-def _callable_object(inner: Any, unhashable: bool = False) -> Any:
+def _callable_object(inner: Any, unhashable: bool = False, falsy: bool = False) -> Any:
     import inspect
 
     extra: dict[str, Any] = {}
+    if falsy:
+        extra["__len__"] = lambda self: 0  # a callable whose truth value is False
     if unhashable:
         # defining __eq__ without __hash__ makes instances unhashable (think: a dataclass with __call__)
         extra["__eq__"] = lambda self, other: self is other
@@ -81,7 +83,7 @@ def cases(draw: Any, tier: str) -> dict:
             beh = d.pick(["self_end", "until_told", "until_cancel"])
         dd = d.pick([x for x in (1, 3, 5, 7) if x != body_sleep])
         r: dict[str, Any] = {"k": "svc", "action": action, "beh": beh, "d": dd, "c": d.weighted([(0, 30), (1, 35), (2, 20), (3, 15)]),
-                             "shape": d.weighted([("function", 65), ("object", 20), ("partial", 15)]),
+                             "shape": d.weighted([("function", 60), ("object", 17), ("partial", 13), ("falsy_object", 10)]),
                              "started": d.pct(30), "inner_td": d.pct(40), "via": d.pick(["module", "method"])}
         if d.pct(30):
             # names are descriptions, not keys: several service tasks may carry the same one
@@ -101,7 +103,7 @@ def cases(draw: Any, tier: str) -> dict:
             r["pre"] = d.int(0, 2)
         for _ in range(d.int(1, 3)):
             regs2.append({"k": d.pick(["res", "res", "td"]), "pre": d.int(0, 3)})
-    return {"backend": draw(BACKEND), "sched_seed": draw(SEED), "kind": d.pick(["root", "nested"]), "body_sleep": body_sleep,
+    return {"backend": draw(BACKEND), "sched_seed": draw(SEED), "kind": d.pick(["root", "nested", "component"]), "body_sleep": body_sleep,
             "ending": d.weighted([("return", 70), ("raise", 30)]), "regs": regs, "regs2": regs2}
 
 
@@ -261,22 +263,51 @@ class Interp:
                             interp.ev("action", i)
                             interp.ev("action-end", i)
                             raise ActBase(f"action {i}")
-                    if callable(action) and reg.get("shape") == "object":
+                    if callable(action) and reg.get("shape") in ("object", "falsy_object"):
                         # a callable object (an instance of a class with __call__) is a callable too
-                        action = _callable_object(action, unhashable=bool(i % 2))
+                        action = _callable_object(action, unhashable=bool(i % 2), falsy=reg["shape"] == "falsy_object")
                     elif callable(action) and reg.get("shape") == "partial":
                         import functools
 
                         action = functools.partial(action)
                     fn = self.make_task(i, reg, stop)
-                    if reg["via"] == "module":
-                        v = await start_service_task(fn, reg.get("name") or f"svc{i}", teardown_action=action)
-                    else:
-                        v = await ctx.start_service_task(fn, reg.get("name") or f"svc{i}", teardown_action=action)
+                    # ("cancel" is the default: every other such registration leaves the argument out)
+                    akw = {} if action == "cancel" and i % 2 else {"teardown_action": action}
+                    try:
+                        if reg["via"] == "module":
+                            v = await start_service_task(fn, reg.get("name") or f"svc{i}", **akw)
+                        else:
+                            v = await ctx.start_service_task(fn, reg.get("name") or f"svc{i}", **akw)
+                    except Exception as exc:
+                        self.disc("start-raised", f"start_service_task(teardown_action={reg['action']}, {reg.get('shape')}) raised {short_exc(exc)}")
+                        raise
                     self.start_values[i] = v
                 self.ev("reg", i)
 
         async def block(ctx: Any) -> None:
+            if case["kind"] == "component":
+                # the same registrations, made from a component's start(): they go through the component's
+                # own context object and belong to the context start_component() was called in
+                from asphalt.core import Component, current_context, start_component
+
+                class Starter(Component):
+                    async def start(self) -> None:
+                        await registrations(current_context())
+
+                await start_component(Starter, timeout=None)
+            else:
+                await registrations(ctx)
+            try:
+                await anyio.sleep(case["body_sleep"])
+            except cancelled_cls:
+                self.body_cancelled = True
+                self.ev("body-cancelled")
+                raise
+            self.ev("body-end")
+            if case["ending"] == "raise":
+                raise VErr("block")
+
+        async def registrations(ctx: Any) -> None:
             n1 = len(regs)
             if case.get("regs2"):
                 async def helper() -> None:
@@ -291,18 +322,9 @@ class Interp:
                     await register(ctx, list(range(n1)))
             else:
                 await register(ctx, list(range(n1)))
-            try:
-                await anyio.sleep(case["body_sleep"])
-            except cancelled_cls:
-                self.body_cancelled = True
-                self.ev("body-cancelled")
-                raise
-            self.ev("body-end")
-            if case["ending"] == "raise":
-                raise VErr("block")
 
         try:
-            if case["kind"] == "root":
+            if case["kind"] in ("root", "component"):
                 async with Context() as ctx:
                     try:
                         await block(ctx)
